@@ -1,7 +1,7 @@
 (* MD5 (RFC 1321), executable. *)
 From Coq Require Import List NArith.
 From GoPdf.Base Require Import Bytes.
-From GoPdf.C09 Require Import Word.
+From GoPdf.C09 Require Import Word Nib NWord.
 Import ListNotations.
 Open Scope N_scope.
 
@@ -24,25 +24,33 @@ Definition md5_steps : list (N * N * N * N) := [
    (3, 8, 1873313359, 6); (3, 15, 4264355552, 10); (3, 6, 2734768916, 15); (3, 13, 1309151649, 21);
    (3, 4, 4149444226, 6); (3, 11, 3174756917, 10); (3, 2, 718787259, 15); (3, 9, 3951481745, 21)].
 
-Definition md5_f (kind b c d : N) : N :=
-  if kind =? 0 then N.lor (N.land b c) (N.land (notw 32 b) d)
-  else if kind =? 1 then N.lor (N.land d b) (N.land (notw 32 d) c)
-  else if kind =? 2 then N.lxor b (N.lxor c d)
-  else N.lxor c (N.lor b (notw 32 d)).
+Definition w32 (n : N) : word := word_of_N 8 n.
 
-Definition md5_step (m : list N) (st : N * N * N * N) (s : N * N * N * N) : N * N * N * N :=
+(* the table with constants and rotations converted once *)
+Definition md5_steps_w : list (N * nat * word * (nat * nat)) :=
+  map (fun s => let '(kind, g, k, r) := s in (kind, N.to_nat g, w32 k, qr (32 - N.to_nat r))) md5_steps.
+
+Definition md5_f (kind : N) (b c d : word) : word :=
+  if kind =? 0 then wor (wand b c) (wand (wnot b) d)
+  else if kind =? 1 then wor (wand d b) (wand (wnot d) c)
+  else if kind =? 2 then wxor b (wxor c d)
+  else wxor c (wor b (wnot d)).
+
+Definition md5_state := (word * word * word * word)%type.
+
+Definition md5_step (m : list word) (st : md5_state) (s : N * nat * word * (nat * nat)) : md5_state :=
   let '(a, b, c, d) := st in
   let '(kind, g, k, r) := s in
-  let f := addw 32 (addw 32 (addw 32 (md5_f kind b c d) a) k) (nth (N.to_nat g) m 0) in
-  (d, addw 32 b (rotl 32 f r), b, c).
+  let f := wadd (wadd (wadd (md5_f kind b c d) a) k) (nth g m []) in
+  (d, wadd b (wrotr_qr r f)  (* rotate left by s = right by 32 - s *), b, c).
 
-Definition md5_block (st : N * N * N * N) (blk : bytes) : N * N * N * N :=
-  let m := map le_word (chunks 4 blk) in
+Definition md5_block (st : md5_state) (blk : bytes) : md5_state :=
+  let m := map word_of_le (chunks 4 blk) in
   let '(a, b, c, d) := st in
-  let '(a', b', c', d') := fold_left (md5_step m) md5_steps st in
-  (addw 32 a a', addw 32 b b', addw 32 c c', addw 32 d d').
+  let '(a', b', c', d') := fold_left (md5_step m) md5_steps_w st in
+  (wadd a a', wadd b b', wadd c c', wadd d d').
 
-(* number of zero bytes after the 0x80 so that len+1+z = 56 mod 64 *)
+(* number of zero bytes after the 0x80 so that the padded length is a multiple of [blk] *)
 Definition pad_zeros (blk lenfield : N) (len : N) : nat :=
   N.to_nat ((blk - lenfield + blk - ((len + 1) mod blk)) mod blk).
 
@@ -50,7 +58,8 @@ Definition md5_pad (msg : bytes) : bytes :=
   let len := N.of_nat (length msg) in
   msg ++ 128 :: zeros (pad_zeros 64 8 len) ++ le_bytes 8 (8 * len).
 
+Definition md5_iv : md5_state := (w32 1732584193, w32 4023233417, w32 2562383102, w32 271733878).
+
 Definition md5 (msg : bytes) : bytes :=
-  let '(a, b, c, d) := fold_left md5_block (chunks 64 (md5_pad msg))
-                                 (1732584193, 4023233417, 2562383102, 271733878) in
-  le_bytes 4 a ++ le_bytes 4 b ++ le_bytes 4 c ++ le_bytes 4 d.
+  let '(a, b, c, d) := fold_left md5_block (chunks 64 (md5_pad msg)) md5_iv in
+  le_of_word a ++ le_of_word b ++ le_of_word c ++ le_of_word d.
